@@ -81,11 +81,17 @@ class Ctx:
 
 
 def load_known(path=KNOWN_FILE):
-    if not os.path.exists(path):
-        return []
-    with open(path) as f:
-        data = json.load(f)
-    return data.get("findings", [])
+    """Entries of known_findings.json plus known_findings.d/*.json (one file per property)."""
+    import glob
+    out = []
+    paths = [path] + sorted(glob.glob(os.path.join(os.path.dirname(path), "known_findings.d", "*.json")))
+    for p in paths:
+        if not os.path.exists(p):
+            continue
+        with open(p) as f:
+            data = json.load(f)
+        out.extend(data.get("findings", []))
+    return out
 
 
 def finding_key(prop, r):
